@@ -57,6 +57,14 @@ CLAIMED = {
             "Faulty transport configuration: valid messages produced by the real sender are delivered with swarm-chosen faults (truncation biased to structural bytes, read error after k bytes, bit flips/byte substitution, duplication, loss, reorder, splice of two messages, faulty sender mutating the JSON tree) to NewRequest, UnmarshalDocument and, for the data member, the five payload-level entry points; safety oracle only: no panic, error xor result, read errors propagated, every returned resource conforms to the schema.",
             "Decides C05 on byte strings reachable from valid messages by transport and sender faults, not on all byte strings in the abstract. One open known finding (bytes attribute: panic instead of error; pinned by TestAttrUnmarshalToType).",
             "fault injection on a simulated request body, safety oracle"),
+    "C08": ("E3-url", "4/C08",
+            "Each seeded raw URL (any accepted path shape; fields / sort / include / page / filter label or and-or tree; reserved characters percent-encoded) is parsed and printed in 1..6 variants that differ only in the order of differently named parameters, of names inside fields / include lists and in empty list items, every parse and String() under its own seeded map-iteration order: all variants must be accepted or rejected together and print the same text; String() must parse back to the same URL and print the same text again.",
+            "The seam-dependent clause (parameter / list order reaches the library as map iteration order) is decided by simulation; the fixed-point law is monitored on sampled URLs. Parse errors/panics are outside C08. One open known finding (a type without fields prints as a truncated parameter; pinned by golden files).",
+            "seeded map-order scheduling + parameter-order metamorphism, fixed-point oracle"),
+    "C12": ("E7-conc", "4/C12",
+            "2..16 caller tasks (real goroutines, -race build) run seeded lists of the property's read-only operations with private inputs against one shared schema; a seeded scheduler (uniform, PCT priorities, round-robin quantum, run-to-completion; explicit shrinkable prefix) decides at every instrumented function entry / loop iteration who runs next, passing the token over raw pipes so that no happens-before edge hides a race. Oracles: race detector report with a package frame, deep write detector on the shared schema after every scheduler step, per-operation result equal to a solo control run, no panic.",
+            "One task runs at a time; yield points are function entries and loop iterations. The race detector is sound but incomplete (bounded shadow memory, sync.Pool edges); the write detector cannot see same-value writes or closure state. A clean batch is evidence over the sampled schedules, not proof.",
+            "seeded goroutine-interleaving simulation (token passing without happens-before) + race detector + write detector + solo-result oracle"),
 }
 
 NA = {
@@ -68,7 +76,7 @@ NA = {
     "C20": "Check/Wrap/BuildType are pure functions of a reflect.Type; the quantifier is over programs (struct declarations), not over runs of anything.",
 }
 
-PLANNED = ["C08", "C12"]
+PLANNED = []
 
 
 def main():
@@ -111,6 +119,10 @@ def main():
              "kind_free_text": "documents/URLs marshaled under seeded map orders and permutations; Include histories + structure validator"},
             {"name": "E2-wire", "path": "sim/engines/e2wire", "serves_properties": ["C01", "C02", "C05"],
              "kind_free_text": "real sender -> simulated request body (fragmentation; 8 fault kinds) -> real receiver; fault-free and faulty configurations run separately"},
+            {"name": "E3-url", "path": "sim/engines/e3url", "serves_properties": ["C08"],
+             "kind_free_text": "URL variants parsed/printed under seeded map orders; re-parse fixed point"},
+            {"name": "E7-conc", "path": "sim/engines/e7conc + sim/sched", "serves_properties": ["C12"],
+             "kind_free_text": "seeded scheduler over real goroutines in a -race build; HB-free token passing over raw pipes; write detector; solo oracle"},
             {"name": "E4-store", "path": "sim/engines/e4store", "serves_properties": ["C19", "C09"],
              "kind_free_text": "SoftCollection histories vs ordered-list model; Range queries on reached store states vs reference evaluator"},
         ],
